@@ -90,7 +90,7 @@ theorem poll_post (w : World) (h : PhaseV w.view w.fut) : Post (World.poll w) :=
     | q0Flush => exact i8 _ _ (φIO_poll _) hpc
     | discWrite bytes => exact i7 _ _ _ (φLW_poll _) hpc
     | discFlush => exact i8 _ _ (φIO_poll _) hpc
-    | waitRead outer deadline yielded => exact i13 _ _ _ _ (φDWR_poll _ _) hpc.1
+    | waitRead outer deadline yielded => exact i13 _ _ _ _ (φDWR_poll _ _) hpc.1 hpc.2.2.2.1
 
 theorem Post_goLoop (n : Nat) (w : World) (h : Post w) : Post (World.goLoop n w) := by
   induction n generalizing w with
@@ -170,7 +170,7 @@ theorem cancel_phase {v : View} {fut : Option Pc} (h : PhaseV v fut) (hnt : tear
     | q0Flush => exact PhaseV.live (LocalFlushPre.flushPre h (by decide))
     | discWrite bytes => simp [tearsPacket] at hnt
     | discFlush => exact PhaseV.live (LocalFlushPre.flushPre h (by decide))
-    | waitRead outer deadline yielded => exact PhaseV.live (h.1.1.flushPre h.2)
+    | waitRead outer deadline yielded => exact PhaseV.live (h.1.1.flushPre h.2.1)
 
 theorem PhaseV_net {v : View} {pc : Pc} (h : PhaseV v (some pc)) : v.net = true := by
   cases pc with
@@ -954,7 +954,7 @@ theorem PhaseV_wire {v : View} {fut : Option Pc} (h : PhaseV v fut)
     | q0Flush => exact ofFlush rfl (LocalFlushPre.flushPre h (by decide))
     | discWrite bytes => exact ofLocal (which := 2) (by decide) h (Or.inr rfl)
     | discFlush => exact ofFlush rfl (LocalFlushPre.flushPre h (by decide))
-    | waitRead outer deadline yielded => exact ofFlush rfl (h.1.1.flushPre h.2)
+    | waitRead outer deadline yielded => exact ofFlush rfl (h.1.1.flushPre h.2.1)
 
 /-- On a live connection the facts of `Lv` hold, at every await point. -/
 theorem PhaseV_lv {v : View} {fut : Option Pc} (h : PhaseV v fut) (hlive : v.live = true) : ∃ part, Lv v part := by
@@ -982,7 +982,7 @@ theorem PhaseV_lv {v : View} {fut : Option Pc} (h : PhaseV v fut) (hlive : v.liv
     | q0Flush => exact ofFlush (LocalFlushPre.flushPre h (by decide))
     | discWrite bytes => exact ofLocal (which := 2) (by decide) h
     | discFlush => exact ofFlush (LocalFlushPre.flushPre h (by decide))
-    | waitRead outer deadline yielded => exact ofFlush (h.1.1.flushPre h.2)
+    | waitRead outer deadline yielded => exact ofFlush (h.1.1.flushPre h.2.1)
 
 /-- A connection is live only after an accepted CONNACK. -/
 theorem PhaseV_acc {v : View} {fut : Option Pc} (h : PhaseV v fut) (hlive : v.live = true) :
